@@ -120,6 +120,10 @@ Dev_RangeBeforeSyntax(sc, u, r, obs) ==
   /\ obs = "O" /\ ~sc.ok /\ sc.hasP
   /\ \/ (sc.neg /\ ~RepSigned(r))
      \/ \E j \in 1..Len(sc.comps) : PrefixUnrepresentable(sc, j, u, r)
+     \* the fraction of the failing component is added before its designator is examined
+     \/ (sc.pend # <<>> /\ LET secs == CompsSecs(sc.comps, Len(sc.comps)) IN
+           \/ "O" \in TickOutcomes(IF sc.neg THEN Neg(secs) ELSE secs, sc.pend, sc.neg, u, r)
+           \/ FractionTooWide(sc.pend, sc.neg, u, r))
 
 -----------------------------------------------------------------------------
 Fail(i, k, why, dev, obs, allowed) == [tgt |-> TName(k, i), why |-> why, dev |-> dev, obs |-> obs, allowed |-> allowed]
